@@ -95,7 +95,7 @@ CHECKS = {
     "C19": ("part", "4 C19",
             "monotone-form check of the running offset, dtype discipline, fresh-destination per-frame masking of relabel-by-track, producer/consumer agreement on the time attribute",
             "Decides that the offset never decreases, that every path into the frame loop has widened the labels to 64 bit and the result stays wide, and that relabel-by-track "
-            "writes per-frame source-only masks into a fresh zero array, one label per component, and that the time attribute it indexes the array with is, at its producers, the frame index of the caller's own (un-cropped) array. The running offset is initialised outside every loop (one offset across frames and hypotheses)."),
+            "writes per-frame source-only masks into a fresh zero array, one label per component, and that the time attribute it indexes the array with is, at its producers, the frame index of the caller's own (un-cropped) array. The running offset is initialised outside every loop (one offset across frames and hypotheses); building the candidate graph only reads the caller's label array (R19.6, effect analysis)."),
     "C20": ("whole", "4 C20",
             "per-path counting of signal emissions in user-action constructors (nested actions inlined) and the undo/redo facade; who-may-emit",
             "Decides the counting statement per path: 1 emission for a top-level success, 0 when nested or refused, emission last and "
